@@ -21,6 +21,8 @@ pub enum Op {
     RegRaw(u8, Vec<Vec<u8>>, Vec<u8>),
     DeregRaw(u8, Vec<Vec<u8>>, Vec<u8>),
     Limit(u8),
+    /// test hook (cfg coap_lite_verif): set the sequence number of an existing resource
+    Seq(String, u32),
 }
 
 impl Op {
@@ -34,6 +36,7 @@ impl Op {
             Op::RegRaw(e, segs, t) => format!("regraw {} {} {}", e, segtok(segs), hex(t)),
             Op::DeregRaw(e, segs, t) => format!("deregraw {} {} {}", e, segtok(segs), hex(t)),
             Op::Limit(l) => format!("limit {}", l),
+            Op::Seq(p, n) => format!("seq {} {}", hex(p.as_bytes()), n),
         }
     }
     pub fn paths(&self) -> Option<String> {
@@ -44,7 +47,7 @@ impl Op {
                 r.set_path(p);
                 Some(r.get_path())
             }
-            Op::Chg(p, _, _) => Some(p.clone()),
+            Op::Chg(p, _, _) | Op::Seq(p, _) => Some(p.clone()),
             Op::RegRaw(_, segs, _) | Op::DeregRaw(_, segs, _) => Some(raw_request(0, segs, &[]).get_path()),
             _ => None,
         }
@@ -87,6 +90,7 @@ fn apply(s: &mut Subject<u8>, op: &Op) {
         Op::Chg(p, m, c) => s.resource_changed(p, *m, *c),
         Op::Ack(e, m) => s.acknowledge(&request(*e, "", &[], *m)),
         Op::Limit(l) => s.set_unacknowledged_limit(*l),
+        Op::Seq(p, n) => s.verif_set_sequence(p, *n),
     }
 }
 
@@ -159,7 +163,8 @@ impl RefSubject {
             Op::Chg(p, m, c) => {
                 let limit = self.limit;
                 if let Some(r) = self.res.get_mut(p) {
-                    r.seq += 1;
+                    // a 32-bit counter that goes up by one per round (and wraps instead of overflowing)
+                    r.seq = (r.seq + 1) % (1u64 << 32);
                     for o in r.obs.iter_mut() {
                         o.3 = Some(*m);
                         if *c {
@@ -195,6 +200,11 @@ impl RefSubject {
                 }
             }
             Op::Limit(l) => self.limit = *l as u32,
+            Op::Seq(p, n) => {
+                if let Some(r) = self.res.get_mut(p) {
+                    r.seq = *n as u64;
+                }
+            }
         }
     }
     fn dump(&self, paths: &BTreeSet<String>) -> String {
@@ -552,6 +562,41 @@ pub fn run(cx: &mut Ctx) {
         for d in [1u16, 0x100, 0x8000, 0xffff] {
             let ops = vec![Op::Limit(1), Op::Reg(1, "m".into(), vec![1]), Op::Reg(3, "m".into(), vec![3]), Op::Chg("m".into(), mid, true), Op::Ack(1, mid ^ d), Op::Ack(2, mid), Op::Ack(3, mid), Op::Chg("m".into(), mid.wrapping_add(1), true), Op::Chg("m".into(), mid.wrapping_add(2), true)];
             case_trace(cx, &ops);
+        }
+    }
+
+    // ---- 2d. rounds across the end of the 32-bit sequence range (reached through the test hook;
+    //          2^32 real rounds take minutes and are run in the thorough tier only)
+    for start in [u32::MAX - 2, u32::MAX - 1, u32::MAX, 0x7fff_ffff, 0x00ff_ffff, 0xffff] {
+        for con in [false, true] {
+            let mut ops = vec![Op::Limit(255), Op::Reg(1, "w".into(), vec![1]), Op::Seq("w".into(), start), Op::Seq("absent".into(), 5)];
+            for i in 0..5u16 {
+                ops.push(Op::Chg("w".into(), i, con));
+            }
+            case_trace(cx, &ops);
+        }
+    }
+    if thorough {
+        // no hook: 2^32 + 2 real notification rounds on an observed resource
+        let line = "OBS soak 4294967298".to_string();
+        let r = guarded(|| {
+            let mut s: Subject<u8> = Subject::default();
+            s.register(&request(1, "p", &[1], 0));
+            for i in 0..(1u64 << 32) + 2 {
+                s.resource_changed("p", i as u16, false);
+            }
+            s.get_resource("p").map(|r| r.sequence)
+        });
+        match r {
+            Some(Some(2)) => cx.case(&line, "2"),
+            Some(other) => {
+                cx.case(&line, &format!("{:?}", other));
+                cx.oracle_fail("C15", &line, &format!("after 2^32 + 2 rounds the sequence number is {:?} instead of 2", other));
+            }
+            None => {
+                cx.case(&line, "panic");
+                cx.oracle_fail("C15", &line, "resource_changed panicked within 2^32 + 2 notification rounds (sequence counter overflow)");
+            }
         }
     }
 
